@@ -236,6 +236,8 @@ fn workloads(prop: &str, thorough: bool) -> Vec<Work> {
             exh(&mut w, exhaustive::Phase::Edits);
         }
         "C12" => {
+            // large graphs (subprocesses): the 'noop' cascade is this property at scale
+            w.push(Work::Sweep { thorough: false });
             w.push(bridge(Prod, Random, 8, 600 * k, false, false));
             w.push(bridge(Stamped, ValidatedEph, 4, 500 * k, false, false));
             w.push(chains(Prod, KindFlip, 8, 4000 * k));
